@@ -164,3 +164,73 @@ contract(TS + "run_single_timestep.py", "solution_single_time_step",
          assigns=["init_cond.**", "outputs.**", "param_struct.Fallow_Crop.Aer", "param_struct.Fallow_Crop.Zmin"],
          options=dict(merge_limit=None),
          props=("C01", "C02", "C03", "C04", "C05", "C06", "C07", "C12", "C13", "C19", "C16"))
+
+# ----------------------------------------------------------------------------- check_model_is_finished
+contract(TS + "check_if_model_is_finished.py", "check_model_is_finished",
+         params=dict(step_end_time="Int", simulation_end_date="Int", model_is_finished="Bool", season_counter="Int", n_seasons="Int", harvest_flag="Bool"),
+         returns=[("finished", "Bool")],
+         ensures=[("C07.finished_def", "finished == (step_end_time >= simulation_end_date or (harvest_flag and season_counter == n_seasons - 1))")],
+         props=("C07", "C09", "C16"))
+
+def _reset_assigns():
+    """frame of the trusted reset contract, derived from the current source: every `InitCond.<field> = ...` target of the function"""
+    import ast, os
+    from vc.interp import REPO
+    tree = ast.parse(open(os.path.join(REPO, TS + "reset_initial_conditions.py")).read())
+    out = []
+    for n in ast.walk(tree):
+        if isinstance(n, ast.Assign):
+            for t in n.targets:
+                if isinstance(t, ast.Attribute) and isinstance(t.value, ast.Name) and t.value.id == "InitCond" and ("InitCond." + t.attr) not in out:
+                    out.append("InitCond." + t.attr)
+    return out
+
+
+# ----------------------------------------------------------------------------- reset_initial_conditions (TRUSTED: numpy/pandas vector code)
+contract(TS + "reset_initial_conditions.py", "reset_initial_conditions",
+         params=dict(ClockStruct=OBJ("ClockStruct"), InitCond=OBJ("InitialCondition"), ParamStruct=OBJ("ParamStruct"), weather=("Opaque"), crop=OBJ("Crop")),
+         returns=[("NewCond", ("Param", "InitCond")), ("ps", ("Param", "ParamStruct"))],
+         ensures=[("C07.reset_counters", "NewCond.dap == 0 and not NewCond.harvest_flag and not NewCond.crop_mature and not NewCond.crop_dead and NewCond.irr_cum == 0 and NewCond.irr_net_cum == 0 and NewCond.gdd_cum == 0")],
+         assigns=_reset_assigns(),
+         trusted=True,
+         note="ASSUMED contract (vectorised numpy code out of E1's reach): counters and flags reset; the complete reset (C08) is served by the bounded check",
+         props=("C07", "C08"))
+
+# ----------------------------------------------------------------------------- update_time
+_CLK = "clock_struct"
+CLOCK_AX = [
+    "n_steps >= 2", "forall(i, 0, n_steps, {c}.time_span[i] == {c}.time_span[0] + i)".format(c=_CLK),
+    "0 <= {c}.time_step_counter and {c}.time_step_counter + 1 <= n_steps - 1".format(c=_CLK),
+    "{c}.step_start_time == {c}.time_span[{c}.time_step_counter] and {c}.step_end_time == {c}.time_span[{c}.time_step_counter + 1]".format(c=_CLK),
+    "{c}.simulation_end_date == {c}.time_span[n_steps - 1]".format(c=_CLK),
+    "-1 <= {c}.season_counter and {c}.season_counter < {c}.n_seasons and {c}.n_seasons == n_seasons".format(c=_CLK),
+    # schedule (established by the pandas initialisers: assumed, bounded C07 check): strictly increasing planting dates inside the calendar,
+    # each strictly before the end date; the next one lies after today
+    "forall(k, 0, n_seasons - 1, {c}.planting_dates[k] < {c}.planting_dates[k+1])".format(c=_CLK),
+    "forall(k, 0, n_seasons, {c}.time_span[0] <= {c}.planting_dates[k] and {c}.planting_dates[k] < {c}.simulation_end_date)".format(c=_CLK),
+    "implies({c}.season_counter + 1 < n_seasons, {c}.planting_dates[{c}.season_counter + 1] > {c}.step_start_time)".format(c=_CLK),
+]
+contract(TS + "update_time.py", "update_time",
+         params=dict(clock_struct=OBJ("ClockStruct"), init_cond=OBJ("InitialCondition"), param_struct=OBJ("ParamStruct"), weather=("Opaque"), crop=OBJ("Crop")),
+         ghost=dict(n_steps="Int", n_seasons="Int"),
+         requires=CLOCK_AX + [
+             "{c}.model_is_finished == ({c}.step_end_time >= {c}.simulation_end_date or (init_cond.harvest_flag and {c}.season_counter == n_seasons - 1))".format(c=_CLK),
+         ],
+         returns=[("clk", ("Param", "clock_struct")), ("cond", ("Param", "init_cond")), ("ps", ("Param", "param_struct"))],
+         ensures=[
+             ("C07.update_time_finished_is_noop", "implies(old({c}.model_is_finished), {c}.time_step_counter == old({c}.time_step_counter) and {c}.season_counter == old({c}.season_counter))".format(c=_CLK)),
+             ("C07.update_time_strictly_forward", "implies(not old({c}.model_is_finished), {c}.time_step_counter > old({c}.time_step_counter))".format(c=_CLK)),
+             ("C07.update_time_next_day", "implies(not old({c}.model_is_finished) and not (old(init_cond.harvest_flag) and not {c}.sim_off_season), {c}.time_step_counter == old({c}.time_step_counter) + 1)".format(c=_CLK)),
+             ("C07.update_time_jump_to_planting", "implies(not old({c}.model_is_finished) and old(init_cond.harvest_flag) and not {c}.sim_off_season, "
+              "{c}.season_counter == old({c}.season_counter) + 1 and {c}.step_start_time == {c}.planting_dates[{c}.season_counter])".format(c=_CLK)),
+             ("C07.update_time_clock_consistent", "implies(not old({c}.model_is_finished), {c}.time_step_counter + 1 <= n_steps - 1 and {c}.step_start_time == {c}.time_span[{c}.time_step_counter] "
+              "and {c}.step_end_time == {c}.time_span[{c}.time_step_counter + 1])".format(c=_CLK)),
+             ("C07.update_time_season_starts_on_planting_date", "implies({c}.season_counter != old({c}.season_counter), {c}.season_counter == old({c}.season_counter) + 1 and "
+              "{c}.step_start_time == {c}.planting_dates[{c}.season_counter] and cond.dap == 0 and not cond.harvest_flag)".format(c=_CLK)),
+             ("C07.update_time_enters_season_on_planting_date", "implies(not old({c}.model_is_finished) and not (old(init_cond.harvest_flag) and not {c}.sim_off_season) and "
+              "old({c}.season_counter) + 1 < n_seasons and {c}.time_span[old({c}.time_step_counter) + 1] == {c}.planting_dates[old({c}.season_counter) + 1], "
+              "{c}.season_counter == old({c}.season_counter) + 1)".format(c=_CLK)),
+             ("C01.update_time_carries_water", "implies({c}.season_counter == old({c}.season_counter), same(cond.th, old(init_cond.th)) and cond.surface_storage == old(init_cond.surface_storage))".format(c=_CLK)),
+         ],
+         assigns=["clock_struct.time_step_counter", "clock_struct.season_counter", "clock_struct.step_start_time", "clock_struct.step_end_time", "init_cond.**"],
+         props=("C07", "C01", "C09", "C16"))
